@@ -140,7 +140,13 @@ func c03Spec(rng *rand.Rand, i int) *SessSpec {
 		sp.Membership = "dynamic"
 		sp.FirstInfo = [2]int{1, 1}
 		sp.API = true
-		sp.Steps = append(sp.Steps, Step{Op: "barrier"}, Step{Op: "rebalanceapi"}, Step{Op: "waitrebalance", N: 1},
+		sp.Steps = append(sp.Steps, Step{Op: "barrier"})
+		if len(sp.CollNames) > 0 && i%10 == 2 {
+			// the node refuses one collection-id lookup during the re-open: the client either stops (a failed sequence-number
+			// query is fatal, C15) or goes on naming the events as before
+			sp.Steps = append(sp.Steps, Step{Op: "collfail"})
+		}
+		sp.Steps = append(sp.Steps, Step{Op: "rebalanceapi"}, Step{Op: "waitrebalance", N: 1},
 			Step{Op: "append", VB: rng.Intn(sp.NumVB), Items: genSnap(rng, o, &ctr)})
 	}
 	sp.Steps = append(sp.Steps, Step{Op: "barrier"})
@@ -189,6 +195,14 @@ func init() {
 			return r
 		},
 		OnDeath: func(sc drv.Scenario, out drv.ChildOutcome) drv.Result {
+			for _, nt := range out.Notes {
+				if strings.Contains(nt, "collfail armed") && drv.IsLibraryPanic(out.Stderr) && strings.Contains(drv.PanicLine(out.Stderr), "collection not found") {
+					// the refused lookup was one the re-open depends on (collection-aware sequence numbers): stopping is the
+					// documented reaction (C15), nothing was delivered wrongly
+					return drv.Result{Verdict: drv.Held, Checks: 1, TraceHash: drv.Hash("wire", "collfail-failstop"), Events: map[string]int{"fail_stop": 1},
+						Sample: map[string]any{"outcome": "fail-stop on a refused collection-id lookup during the re-open: " + drv.PanicLine(out.Stderr)}}
+				}
+			}
 			if drv.IsLibraryPanic(out.Stderr) {
 				return drv.Result{Verdict: drv.Violated, Clause: "death", FindingKey: "C03/process-death", Detail: "process died while streaming a well-formed history (deliveries missing): " + drv.PanicLine(out.Stderr), Witness: out.Stderr}
 			}
